@@ -51,7 +51,7 @@ type uVersion struct {
 }
 
 type universe struct {
-	repos    map[string]*fakeRepo // by repository address
+	repos    map[string]*fakeRepo   // by repository address
 	versions map[string][]*uVersion // by project path, ascending semver order
 	paths    []string
 	// pseudo holds the content of pseudo-versions (a project path at an untagged revision) that reference
@@ -332,7 +332,9 @@ func (u *universe) finish(all []*uVersion, r *rand.Rand) {
 		}
 	}
 	for _, repo := range u.repos {
-		sort.SliceStable(repo.tags, func(i, j int) bool { return semver.Compare(repo.tags[i].Version.Version, repo.tags[j].Version.Version) < 0 })
+		sort.SliceStable(repo.tags, func(i, j int) bool {
+			return semver.Compare(repo.tags[i].Version.Version, repo.tags[j].Version.Version) < 0
+		})
 	}
 }
 
